@@ -103,7 +103,7 @@ def check_pair(part, db, qt, u, v, c, full=True):
                 g = f()
             except Exception as ex:
                 g = repr(ex)
-            if not same(g, e, i):
+            if not (isinstance(g, float) and same(g, e, i)):
                 bad("db.Convert(exponent lists, mixed forms)", g, e, what)
         # category name instead of the quantity type
         n += 1
